@@ -266,6 +266,10 @@ func trimPath(path string) string {
 
 	for len(bytes) > 1 && bytes[0] == '.' && os.IsPathSeparator(bytes[1]) {
 		bytes = bytes[2:]
+		// ".//foo" is "foo", not "/foo"
+		for len(bytes) > 0 && os.IsPathSeparator(bytes[0]) {
+			bytes = bytes[1:]
+		}
 	}
 
 	if len(bytes) == 0 {
